@@ -979,7 +979,9 @@ fn expectation(mat: &Mat, place: &Place) -> Expect {
         }
         // boundary classes
         for i in 0..CAP_NAMES.len() {
-            if let Some(q) = cmd.quantity(i) {
+            // without timeout_ms() the host's default timeout is what max_timeout_ms limits
+            let implicit = (i == 10).then(|| u64::from(mat.caps.default_timeout_ms));
+            if let Some(q) = cmd.quantity(i).or(implicit) {
                 let cap = u64::from(cap_get(&mat.caps, i));
                 let rel = if q == cap {
                     Some("at cap")
